@@ -31,6 +31,7 @@ import NeoFS.Driver.SearchMerge
 import NeoFS.Driver.Search
 import NeoFS.Driver.Rpc
 import NeoFS.Driver.Migrate
+import NeoFS.Driver.Resync
 open NeoFS NeoFS.Driver
 
 /-- State of all stateful models; pure models need none. -/
@@ -50,6 +51,7 @@ structure DState where
   smerge : NeoFS.Driver.SMergeState := {}
   search : NeoFS.Driver.SearchState := {}
   mig : NeoFS.Driver.MigrateState := {}
+  resync : NeoFS.Driver.Resync.State := {}
   irn : NeoFS.IRNetmap.St := ⟨0, false, 0⟩
 
 def stepLine (s : DState) (line : String) : DState × String :=
@@ -76,6 +78,7 @@ def stepLine (s : DState) (line : String) : DState × String :=
   | "search" => let (e, out) := searchStep s.search o; ({ s with search := e }, out)
   | "rpc" => (s, rpcStep o)
   | "migrate" => let (m, out) := migrateStep s.mig o; ({ s with mig := m }, out)
+  | "resync" => let (r, out) := resyncStep s.resync o; ({ s with resync := r }, out)
   | "put" => (s, putStep o)
   | "validate" => (s, validateStep o)
   | "wcread" => let (w, out) := wcreadStep s.wcr o; ({ s with wcr := w }, out)
